@@ -115,6 +115,18 @@ func c06Startup(t *testing.T, out *verifmc.ShardResult) {
 		}
 		return b
 	}
+	resignAt := func(cfg *Config, cp []byte, ts int64) []byte {
+		ci, err := parseCP(cp)
+		if err != nil {
+			panic(verifmc.EngineError{Msg: err.Error()})
+		}
+		b, err := signTreeHead(cfg, treeWithTimestamp{Tree: treeOf(ci), Time: ts})
+		if err != nil {
+			panic(verifmc.EngineError{Msg: err.Error()})
+		}
+		return b
+	}
+	ownCfg := &Config{Name: logName, Key: mcKey, WitnessKey: mcWitKey}
 	otherKeyCfg := &Config{Name: logName, Key: mcOtherKey, WitnessKey: mcWitKey}
 	otherNameCfg := &Config{Name: "example.com/other", Key: mcKey, WitnessKey: mcWitKey}
 	withExtension := func(cp []byte) []byte {
@@ -150,6 +162,19 @@ func c06Startup(t *testing.T, out *verifmc.ShardResult) {
 				st.Set("checkpoint", v)
 			}, wantRefuse: true /* staging bundle was discarded: cannot re-apply, must not guess */},
 		{name: "published checkpoint ahead of the lock store", store: s2.store, lock: s1.lock, wantRefuse: true},
+		// "ahead" is a matter of tree size, not of time: a lock entry that was
+		// re-signed later (a same-key instance on a stale replica of the lock table
+		// that ran empty rounds, a restored table) is still behind a larger
+		// published tree
+		{name: "published checkpoint ahead of the lock store in size but older than it", store: s2.store, lock: s1.lock, wantRefuse: true,
+			mut: func(cfg *Config, st, lk *verifmc.Store) { v, _ := lk.Get(mcLogIDHex); lk.Set(mcLogIDHex, resignAt(ownCfg, v, clock+5)) }},
+		{name: "published checkpoint ahead of the lock store in size, same timestamp", store: s2.store, lock: s1.lock, wantRefuse: true,
+			mut: func(cfg *Config, st, lk *verifmc.Store) {
+				p, _ := st.Get("checkpoint")
+				pi, _ := parseCP(p)
+				v, _ := lk.Get(mcLogIDHex)
+				lk.Set(mcLogIDHex, resignAt(ownCfg, v, pi.TS))
+			}},
 		{name: "same size, different root", store: s1b.store, lock: s1.lock, wantRefuse: true},
 		{name: "same size, different root in the published checkpoint only (tiles match the lock)", store: s1.store, lock: s1.lock, wantRefuse: true,
 			mut: func(cfg *Config, st, lk *verifmc.Store) { v, _ := s1b.store.Get("checkpoint"); st.Set("checkpoint", v) }},
